@@ -18,9 +18,11 @@ VARIABLES l, bad, notes,
           upSet,     \* chunks that were stored by a local upload and are still stored
           upFiles,   \* files uploaded locally and not deleted since
           pdelta,    \* f -> (chunk -> what the last effective pin of f added to the pin counter)
-          lastPin    \* f -> "none" | "pin" | "unpin": last pin-type operation on f
+          lastPin,   \* f -> "none" | "pin" | "unpin": last pin-type operation on f
+          tainted    \* files whose reference was DELETEd (code 200) while it was root-pinned: from then on the history is
+                     \* outside C15's quantifier ("all sequences of pin / unpin / list"), its C15 clauses are not evaluated
 
-tvars == <<l, bad, notes, prev, defs, fileset, upSet, upFiles, pdelta, lastPin>>
+tvars == <<l, bad, notes, prev, defs, fileset, upSet, upFiles, pdelta, lastPin, tainted>>
 
 \* ToSet comes from SequencesExt
 Data(st) == ToSet(st.data)
@@ -73,13 +75,18 @@ C13(e) ==
 (***************************************************************************)
 (* C15  Pin and unpin are idempotent inverses                               *)
 (***************************************************************************)
+\* a DELETE of a root-pinned reference (the handler removes chunks and pin counters): not a pin / unpin / list operation
+DeletesPinned(e) == e.op = "delete" /\ e.code = 200 /\ RootPinned(prev, e.f)
+Tainted(e) == IF DeletesPinned(e) THEN tainted \cup {e.f} ELSE tainted
+Judged15(e) == "f" \in DOMAIN e => e.f \notin Tainted(e)
+
 C15(e) ==
      \* the listing agrees with the per-reference answer, always
      Clause("C15:listing_agrees_with_haspin",
-            \A f \in fileset : (defs[f].root \in ToSet(e.st.pins)) = RootPinned(e.st, f))
+            \A f \in fileset \ Tainted(e) : (defs[f].root \in ToSet(e.st.pins)) = RootPinned(e.st, f))
      \* only pin-type operations on f (or uploading / deleting f itself) change whether f is pinned
   \o Clause("C15:pinned_iff_last_op_was_pin",
-            \A f \in fileset :
+            \A f \in fileset \ Tainted(e) :
                IF "f" \in DOMAIN e /\ e.f = f /\ (IsPinOp(e) \/ IsUnpinOp(e) \/ e.op \in {"upload", "delete"})
                THEN (IsPinOp(e) /\ PinSucceeded(e) => RootPinned(e.st, f))
                     /\ (IsUnpinOp(e) /\ (UnpinSucceeded(e) \/ ~RootPinned(prev, f)) => ~RootPinned(e.st, f))
@@ -87,20 +94,20 @@ C15(e) ==
                     \* left "listed as pinned" after its last operation was an unpin)
                     /\ (IsUnpinOp(e) /\ Chunks(defs, f) \subseteq Data(prev) => ~RootPinned(e.st, f))
                ELSE RootPinned(e.st, f) = RootPinned(prev, f))
-  \o (IF IsPinOp(e) /\ PinSucceeded(e) /\ ~RootPinned(prev, e.f)
+  \o (IF Judged15(e) /\ IsPinOp(e) /\ PinSucceeded(e) /\ ~RootPinned(prev, e.f)
       THEN Clause("C15:pin_marks_every_chunk",
                   \A c \in Chunks(defs, e.f) \cap Data(e.st) : PinOf(e.st, c) > 0)
       ELSE <<>>)
-  \o (IF IsPinOp(e) /\ RootPinned(prev, e.f)
+  \o (IF Judged15(e) /\ IsPinOp(e) /\ RootPinned(prev, e.f)
       THEN Clause("C15:repeated_pin_has_no_effect",
                   PinSet(e.st) = PinSet(prev) /\ ToSet(e.st.pins) = ToSet(prev.pins))
       ELSE <<>>)
-  \o (IF IsUnpinOp(e) /\ RootPinned(prev, e.f) /\ UnpinSucceeded(e) /\ lastPin[e.f] = "pin"
+  \o (IF Judged15(e) /\ IsUnpinOp(e) /\ RootPinned(prev, e.f) /\ UnpinSucceeded(e) /\ lastPin[e.f] = "pin"
          /\ Chunks(defs, e.f) \subseteq Data(prev)
       THEN Clause("C15:unpin_restores_counts_before_pin",
                   \A c \in Chunks(defs, e.f) : PinOf(prev, c) - PinOf(e.st, c) = pdelta[e.f][c])
       ELSE <<>>)
-  \o (IF IsUnpinOp(e) /\ ~RootPinned(prev, e.f)
+  \o (IF Judged15(e) /\ IsUnpinOp(e) /\ ~RootPinned(prev, e.f)
       THEN Clause("C15:repeated_unpin_changes_nothing",
                   PinSet(e.st) = PinSet(prev) /\ ToSet(e.st.pins) = ToSet(prev.pins))
       ELSE <<>>)
@@ -152,6 +159,8 @@ Notes(e) ==
      (IF \E f \in fileset : e.st.files[f].bitlen # 0 /\ e.st.files[f].bitlen # Len(defs[f].data)
       THEN <<"bit vector length differs from the number of distinct data chunks">> ELSE <<>>)
   \o (IF e.op = "gc" /\ ~e.done THEN <<"collection did not report done within 12 runs">> ELSE <<>>)
+  \o (IF DeletesPinned(e) /\ defs[e.f].root \in ToSet(e.st.pins)
+      THEN <<"DELETE of a pinned reference leaves it listed">> ELSE <<>>)
 
 (***************************************************************************)
 (* Monitor                                                                  *)
@@ -160,7 +169,7 @@ ZeroDelta(d, f) == [c \in Chunks(d, f) |-> 0]
 
 TInit == /\ l = 1 /\ bad = <<>> /\ notes = <<>>
          /\ prev = [data |-> <<>>] /\ defs = [x |-> 0] /\ fileset = {} /\ upSet = {} /\ upFiles = {}
-         /\ pdelta = [x \in {} |-> 0] /\ lastPin = [x \in {} |-> "none"]
+         /\ pdelta = [x \in {} |-> 0] /\ lastPin = [x \in {} |-> "none"] /\ tainted = {}
 
 Reset(e) == /\ prev' = e.st
             /\ defs' = e.defs
@@ -168,6 +177,7 @@ Reset(e) == /\ prev' = e.st
             /\ upSet' = {} /\ upFiles' = {}
             /\ pdelta' = [f \in ToSet(e.fileset) |-> ZeroDelta(e.defs, f)]
             /\ lastPin' = [f \in ToSet(e.fileset) |-> "none"]
+            /\ tainted' = {}
             /\ bad' = bad /\ notes' = notes
 
 Step(e) ==
@@ -191,6 +201,7 @@ Step(e) ==
      /\ lastPin' = IF effPin THEN [lastPin EXCEPT ![e.f] = "pin"]
                    ELSE IF IsUnpinOp(e) \/ e.op = "delete" THEN [lastPin EXCEPT ![e.f] = "unpin"]
                    ELSE lastPin
+     /\ tainted' = Tainted(e)
      /\ UNCHANGED <<defs, fileset>>
 
 TStep == /\ l <= NEvents
